@@ -20,7 +20,7 @@ import logging
 import asyncio as aio
 from typing import Any
 from collections.abc import Awaitable, Coroutine
-from .utils import gen_nonce
+from .utils import gen_nonce, timestamp
 from .encoding import BinaryStr, TypeNumber, LpTypeNumber, parse_interest, \
     parse_tl_num, parse_data, DecodeError, Name, NonStrictName, MetaInfo, \
     make_data, InterestParam, make_interest, FormalName, SignaturePtrs, parse_lp_packet, Component
@@ -50,6 +50,7 @@ class NDNApp:
     data_validator: Validator = None
     _autoreg_routes: list[tuple[FormalName, Route, Validator | None, bool, bool]]
     _prefix_register_semaphore: aio.Semaphore = None
+    _last_command_timestamp: int = 0
     logger: logging.Logger
 
     def __init__(self, face=None, keychain=None):
@@ -438,7 +439,7 @@ class NDNApp:
         async with self._prefix_register_semaphore:
             try:
                 _, _, reply = await self.express_interest(
-                    name=make_command('rib', 'register', self.face, name=name),
+                    name=await self._make_rib_command('register', name),
                     lifetime=1000)
                 try:
                     ret = parse_response(reply)
@@ -457,6 +458,18 @@ class NDNApp:
                 self.logger.error('Registration for %s failed: %s', Name.to_str(name), e.__class__.__name__)
                 return False
 
+    async def _make_rib_command(self, command: str, name: FormalName):
+        # NFD only allows one command signed by a specific key for a timestamp number.
+        # Must be called with _prefix_register_semaphore held.
+        for _ in range(10):
+            if timestamp() > self._last_command_timestamp:
+                break
+            await aio.sleep(0.001)
+        ret = make_command('rib', command, self.face, name=name)
+        # The timestamp is the 4th last component: .../<timestamp>/<nonce>/<SignatureInfo>/<SignatureValue>
+        self._last_command_timestamp = int.from_bytes(Component.get_value(ret[-4]), 'big')
+        return ret
+
     async def unregister(self, name: NonStrictName) -> bool:
         """
         Unregister a route for a specific prefix.
@@ -466,16 +479,17 @@ class NDNApp:
         """
         name = Name.normalize(name)
         del self._prefix_tree[name]
-        try:
-            _, _, reply = await self.express_interest(
-                make_command('rib', 'unregister', self.face, name=name), lifetime=1000)
+        async with self._prefix_register_semaphore:
             try:
-                ret = parse_response(reply)
-            except (DecodeError, TypeError, ValueError, IndexError, struct.error):
+                _, _, reply = await self.express_interest(
+                    await self._make_rib_command('unregister', name), lifetime=1000)
+                try:
+                    ret = parse_response(reply)
+                except (DecodeError, TypeError, ValueError, IndexError, struct.error):
+                    return False
+                return ret['status_code'] == 200
+            except (InterestNack, InterestTimeout, InterestCanceled, ValidationFailure):
                 return False
-            return ret['status_code'] == 200
-        except (InterestNack, InterestTimeout, InterestCanceled, ValidationFailure):
-            return False
 
     def set_interest_filter(self, name: NonStrictName, func: Route,
                             validator: Validator | None = None, need_raw_packet: bool = False,
